@@ -420,6 +420,7 @@ class SinkWorld:
         self.now = now = [DAY0]
         self.day = 1
         self.stepno = 0
+        self.errors = []
 
         class T:
             """clock seen by mlzlog"""
@@ -579,8 +580,8 @@ class SinkWorld:
             elif key[0] in COMMODS:
                 if not re.fullmatch(r'\d\d:\d\d:\d\d,\d{3} ' + re.escape(comline or '\0'), new[0]):
                     name += '!content:' + new[0]
-            elif not re.fullmatch(r'\d\d:\d\d:\d\d,\d{3} : %-7s : %-15s: %s' % (LEVELNAME[lvl], re.escape(logname),
-                                                                           re.escape(msg)), new[0]):
+            elif not re.fullmatch(r'\d\d:\d\d:\d\d,\d{3} : ' + re.escape('%-7s : %-15s: %s' % (LEVELNAME[lvl], logname, msg)),
+                                  new[0]):
                 name += '!content:' + new[0]
             sinks.append(name)
         self.seen = cur
@@ -610,6 +611,20 @@ class SinkWorld:
         return sorted(to)
 
     def step(self, a):
+        """execute one abstract action, return the observation in the spec's vocabulary; what the logging package
+        reports about failing handlers on stderr is kept in self.errors (it is not part of the observation)"""
+        import io
+        import sys
+        se = sys.stderr
+        sys.stderr = buf = io.StringIO()
+        try:
+            return self._step(a)
+        finally:
+            sys.stderr = se
+            if buf.getvalue():
+                self.errors.append([ln for ln in buf.getvalue().splitlines() if 'Error' in ln][-1:])
+
+    def _step(self, a):
         for c in self.conns.values():
             del c.msgs[:]
         self.stepno += 1
@@ -706,7 +721,8 @@ def _replay_sinks(beh):
             exp = _sink_expected(st)
             if got != exp:
                 return {'step': i, 'action': {k: v for k, v in st.items() if k != 'exp'},
-                        'expected': exp, 'observed': got, 'first_record_after_midnight': _virgin_loss(beh, i)}
+                        'expected': exp, 'observed': got, 'first_record_after_midnight': _virgin_loss(beh, i),
+                        'handler_errors': w.errors[-2:]}
     finally:
         w.close()
     return None
